@@ -4,7 +4,7 @@ from __future__ import annotations
 from vlib.chdriver import all_of, assume, check, cover, fail, pick, rng
 from vlib.fixtures import CallLog, concrete, mk_host, mk_node, new_sim, quiet, snap
 
-OPS = ["tick", "shutdown", "startup", "reset", "other_request", "ping_in", "ping_out", "sw_api"]
+OPS = ["tick", "shutdown", "startup", "reset", "other_request", "ping_in", "ping_out", "sw_api", "fs_scan"]
 NODE_TYPES = ["computer", "server", "switch", "router", "firewall", "wireless-router"]
 STATES = ["ON", "SHUTTING_DOWN", "OFF", "BOOTING"]
 
@@ -92,6 +92,8 @@ def _build(ntype: str):
         a_ip = "192.168.1.2"
     else:
         raise ValueError(ntype)
+    # a folder with a file, so that a timed file-system operation (folder scan) can be pending when the node goes down
+    a.file_system.create_file(file_name="a.txt", folder_name="docs")
     log = CallLog()
     for nic in a.network_interface.values():
         log.wrap(nic, "send_frame", "a_send")
@@ -154,17 +156,43 @@ class Ref:
         return True
 
 
+def _fs_progress(a):
+    """Everything a timed file-system operation changes: countdowns, visible and true health, deleted flags."""
+    out = []
+    fs = a.file_system
+    for f in list(fs.folders.values()) + list(fs.deleted_folders.values()):
+        files = tuple(sorted((x.name, x.health_status.name, x.visible_health_status.name, bool(x.deleted)) for x in list(f.files.values()) + list(f.deleted_files.values())))
+        out.append((f.name, getattr(f, "scan_countdown", None), getattr(f, "restore_countdown", None), f.health_status.name, f.visible_health_status.name, bool(f.deleted), files))
+    return sorted(out, key=str)
+
+
 def _apply(op: str, ref: Ref, sim, a, b, a_ip, log, wired, ntype: str, t: int) -> int:
     pre = ref.st
     pre_on = pre == "ON"
     log.clear()
     if op == "tick":
+        with concrete():
+            fs_before = _fs_progress(a)
         t += 1
         sim.pre_timestep(t)
         sim.apply_timestep(t)
         ref.tick()
         if not pre_on:
             check(log.count("a_send") == 0, f"{pre} node emitted a frame during a tick")
+            if ref.st != "ON":  # (a tick in which the node reaches ON may already run its software)
+                with concrete():
+                    fs_after = _fs_progress(a)
+                check(fs_before == fs_after, lambda: f"file-system work (scan / restore countdowns, visible health) advanced during a tick on a node that was {pre} and is {ref.st}")
+    elif op == "fs_scan":
+        # start a timed folder scan (3 ticks by default) and make the file's true health differ from its visible one
+        resp = sim.apply_request(["network", "node", "node_a", "file_system", "folder", "docs", "scan"])
+        if pre_on:
+            check(resp.status == "success", f"folder scan on an ON node answered {resp.status}")
+            with concrete():
+                a.file_system.get_file(folder_name="docs", file_name="a.txt").corrupt()
+            cover("fs_scan_started")
+        else:
+            check(resp.status == "failure", f"folder scan on a {pre} node answered {resp.status}")
     elif op in ("shutdown", "reset"):
         resp = sim.apply_request(["network", "node", "node_a", op])
         ok = ref.shutdown(op == "reset")
@@ -325,6 +353,8 @@ HARNESSES = {
         "quick": [
             {"fixed": {"n_ops": 2, "dmax": 2, "ntype": "computer"}, "timeout": 200},
             {"fixed": {"n_ops": 2, "dmax": 2, "ntype": "router"}, "timeout": 200},
+            # a timed folder scan is started first, so that file-system work is pending when the node goes down
+            {"fixed": {"n_ops": 3, "dmax": 2, "ntype": "computer", "op0": 8}, "timeout": 280},
         ],
         "thorough": [
             {"fixed": {"n_ops": 4, "dmax": 2, "ntype": nt, "op0": o0}, "timeout": 1500}
@@ -332,7 +362,7 @@ HARNESSES = {
             for o0 in (1, 3)
         ]
         + [{"fixed": {"n_ops": 3, "dmax": 2, "ntype": nt}, "timeout": 1200} for nt in ("server", "wireless-router")],
-        "cover": ["state_ON", "state_OFF", "state_SHUTTING_DOWN", "returned_to_on"],
+        "cover": ["state_ON", "state_OFF", "state_SHUTTING_DOWN", "returned_to_on", "fs_scan_started"],
         "bounds": {
             "quick": "n_ops=2 ops from the initial ON state, durations 0..2, node types computer+router",
             "thorough": "n_ops=4 (first op fixed to shutdown/reset) durations 0..2 for computer/router/switch/firewall; "
